@@ -35,6 +35,21 @@ def run(chk, repo, tier):
         chk.ob("C09.R3", construct, f"hash_to_G2 [{rule}] {key}", ok, detail, where)
     if err is not None and all(o[3] for o in sub.obs):
         raise err
+    # the two point encoders whose words SkToPk / Sign / PopProve / Aggregate emit: C11's encoder obligations re-stated
+    chk.rule("C09.R4", "compress_G1 / compress_G2 — the words the output byte strings are made of — are the ZCash encoding "
+                       "(C11.R3's encoder obligations re-stated)", 6)
+    from . import C11
+    sub11 = SubCheck()
+    err11 = None
+    try:
+        C11.run(sub11, repo, tier)
+    except AnalysisError as e:
+        err11 = e
+    for rule, construct, key, ok, detail, where in sub11.obs:
+        if rule == "C11.R3" and construct.rsplit(".", 1)[-1] in ("compress_G1", "compress_G2"):
+            chk.ob("C09.R4", construct, f"[{rule}] {key}", ok, detail, where)
+    if err11 is not None and all(o[3] for o in sub11.obs):
+        raise err11
     M = Model(repo, "P")
     it = Interp(M.world)
     tags = tags_of(M, repo)
